@@ -39,6 +39,10 @@ import (
 // handlers (OnQuotaAdd / OnQuotaUpdate / OnQuotaDelete) right after the admission (op line `echo 1`; Model/C15Inf.lean),
 // two replicas wired through the real NewQuotaInformer share one simulated API server (TestVerifC15Replicas*), and the
 // oracle also judges every admission verdict against its own bookkeeping of admitted objects (c15Judge).
+// Round 7: the min-sum clause is also demanded as a TRANSITION clause that exempts only what checkMinQuotaValidate exempts
+// (c15StepMinSum: a checked request without a bypass label fits under its parent WHATEVER labels the parent carries), and
+// the history streams contain updates that are ADMITTED BUT NOT PERSISTED, after which the next request for that quota
+// carries a stale OldObject (the recorded info wins; the dumped topology must stay well-formed).
 
 const c15Dims = 3
 
@@ -806,6 +810,58 @@ func c15Judge(store map[int]*c15Spec, plainMinSum bool, book *c15Book) (string, 
 	return fp, what
 }
 
+// c15StepMinSum (round 7): the min-sum clause as a TRANSITION clause, exempting only what checkMinQuotaValidate exempts.
+// The state-based clause (c15WFx) has to exempt a bypass-labelled record as a PARENT too, because such a quota may lower
+// its own min unchecked.  A request that does NOT itself carry allow-force-update / is-root and is really checked (a
+// create, or an update that changes a compared field — not the unchanged-fields shortcut) is exempt from nothing:
+// once it is admitted, the mins of ALL children of its parent (bypass-labelled or not, the request included) sum to at
+// most the parent's min in every dimension, WHATEVER labels the parent carries (a tree root's children are checked
+// against it; only the tree root itself is not checked against ITS parent), and the mins of all its own children sum
+// to at most its own new min.  Evaluated on the oracle's store of admitted objects (mins and parent links are
+// compared fields, so store and recorded topology agree on them).
+func c15StepMinSum(store map[int]*c15Spec, kind string, old, sp *c15Spec) (string, string) {
+	if kind == "del" || sp == nil || sp.name == 0 || sp.force || sp.treeRoot {
+		return "", ""
+	}
+	if kind == "upd" && old != nil && c15SameCompared(c15Object(old), c15Object(sp)) {
+		return "", ""
+	}
+	if store[sp.name] != sp {
+		return "", ""
+	}
+	sumOf := func(parent, k int) int64 {
+		var sum int64
+		for _, c := range store {
+			if c.parent == parent {
+				sum += c15Val(c.mn[k])
+			}
+		}
+		return sum
+	}
+	if p := store[sp.parent]; sp.parent != 0 && p != nil {
+		for k := 0; k < c15Dims; k++ {
+			if sum := sumOf(sp.parent, k); sum > c15Val(p.mn[k]) {
+				cls := "plain-parent"
+				switch {
+				case p.treeRoot:
+					cls = "is-root-parent"
+				case p.force:
+					cls = "force-parent"
+				}
+				return "C15:admitted:min-sum:checked-request:" + cls, fmt.Sprintf("quota %d carries no bypass label and was checked, but the children of its parent %d (is-root %v, allow-force-update %v) now sum to %d > the parent's min %d in dimension %d",
+					sp.name, sp.parent, p.treeRoot, p.force, sum, c15Val(p.mn[k]), k)
+			}
+		}
+	}
+	for k := 0; k < c15Dims; k++ {
+		if sum := sumOf(sp.name, k); sum > c15Val(sp.mn[k]) {
+			return "C15:admitted:min-sum:checked-request:own-children", fmt.Sprintf("quota %d carries no bypass label and was checked, but its children sum to %d > its new min %d in dimension %d",
+				sp.name, sum, c15Val(sp.mn[k]), k)
+		}
+	}
+	return "", ""
+}
+
 // ---- generator ----
 
 type c15Gen struct {
@@ -1019,6 +1075,8 @@ func (g *c15Gen) fresh(name int) *c15Spec {
 	sp.mn, sp.mx = g.vectors()
 	if r.Chance(1, 6) {
 		g.aimMin(sp)
+	} else if p := g.store[sp.parent]; p != nil && p.treeRoot && r.Bool() {
+		g.aimMin(sp) // round 7: children of an is-root=true parent whose mins sit on / just past what the tree root's min leaves
 	}
 	sp.ns = g.nsList()
 	if g.trees {
@@ -1116,6 +1174,8 @@ func (g *c15Gen) mutate(old *c15Spec) *c15Spec {
 		}
 	}
 	if r.Chance(1, 5) {
+		g.aimMin(&sp)
+	} else if p := g.store[sp.parent]; p != nil && p.treeRoot && !sp.treeRoot && r.Bool() {
 		g.aimMin(&sp)
 	}
 	// round 4: an edit that differs from the old object ONLY in a zero-valued entry (key absent <-> key present with
@@ -1230,7 +1290,9 @@ func TestVerifC15(t *testing.T) {
 	h.Close("one history of 4-16 (thorough: up to 40) create/update/delete requests over <=6 names (incl. system/default), parents incl. self/descendants/unknown, " +
 		"is-parent flips, tree ids, namespaces, min/max over 3 dimensions (absent/0/small, rare negative / min>max / key mismatch), force/is-root labels in 1/8 histories, " +
 		"pod environment (incl. failing List) and raw spelling of labels/annotations/nil maps per request; namespace-list edits that keep a namespace ([a,b]->[b,c], reorder, extend, shrink); " +
-		"in 7/8 of the histories the informer event of every admitted request (typed / unstructured / tombstone by value) is delivered to the real handlers right after; non-trivial = >=3 accepted requests and final depth >=2; distinct by op lines")
+		"in 7/8 of the histories the informer event of every admitted request (typed / unstructured / tombstone by value) is delivered to the real handlers right after; " +
+		"round 7: 1 in 4 admitted checked updates that keep the namespaces annotation (re-parentings 5 in 8) are NOT persisted (no informer event; the next request for that quota — drawn with 1/3 while one is pending — carries the " +
+		"API server's stale object as OldObject / delete object, the client editing its stale copy half of the time), children of is-root=true parents aimed at the parent's min; non-trivial = >=3 accepted requests and final depth >=2; distinct by op lines")
 }
 
 // TestVerifC15Deep: the same history generator biased towards deep trees with full parents (min-sum, keys and tree-id
@@ -1294,6 +1356,13 @@ func c15History(h *vHarness, r *vRand, deep bool) {
 		h.Tag(fmt.Sprintf("history:echo:%d", vB(echo)))
 		book := c15NewBook()
 		nsKeptAcrossUpdate, isRootBelowRoot := false, false
+		// round 7 — ADMITTED BUT NOT PERSISTED: an update the webhook admitted may never reach the API server's store
+		// (a later admission plugin denies it, the write loses a conflict, the client gives up): no informer event, and
+		// the NEXT request for that quota carries the object the API server still stores as OldObject.  stale[n] = that
+		// stored object while it differs from the webhook's last admitted (= recorded) one.  The oracle's truth stays the
+		// recorded topology: g.store holds the last ADMITTED object of every name (the recorded info wins over OldObject).
+		stale := map[int]*c15Spec{}
+		staleSeen, stalePending := false, false
 
 		for st := 0; st < steps && !failed; st++ {
 			ex := g.existing()
@@ -1328,6 +1397,19 @@ func c15History(h *vHarness, r *vRand, deep bool) {
 				}
 				if kind != "add" && r.Chance(1, 10) {
 					target = 0
+				}
+			}
+			if len(stale) > 0 && r.Chance(1, 3) {
+				// follow up on a quota whose stored object lags behind the admitted one: the next request carries it
+				ks := make([]int, 0, len(stale))
+				for k := range stale {
+					ks = append(ks, k)
+				}
+				sort.Ints(ks)
+				target = ks[r.Intn(len(ks))]
+				kind = "upd"
+				if r.Chance(1, 6) {
+					kind = "del"
 				}
 			}
 			cl.pods = nil
@@ -1369,6 +1451,8 @@ func c15History(h *vHarness, r *vRand, deep bool) {
 			var err error
 			var sp *c15Spec
 			var evOld, evObj *v1alpha1.ElasticQuota // the objects of the informer event, should the request be admitted
+			var staleOld *c15Spec                   // upd: the OldObject of the request (the API server's stored object)
+			noPersist := false                      // upd: if admitted, the new object never reaches the API server's store
 			panicked := false
 			switch kind {
 			case "add":
@@ -1408,8 +1492,16 @@ func c15History(h *vHarness, r *vRand, deep bool) {
 					}
 				}
 			case "upd":
+				apiOld := old // the object the API server stores = OldObject of the request
+				if so := stale[target]; so != nil && old != nil {
+					apiOld = so
+				}
 				if old != nil {
-					sp = g.mutate(old)
+					if apiOld != old && r.Bool() {
+						sp = g.mutate(apiOld) // the client edits the copy it read from the API server
+					} else {
+						sp = g.mutate(old)
+					}
 					if g.zeroEdit {
 						h.Tag("upd:zero-entry-edit")
 					}
@@ -1421,24 +1513,67 @@ func c15History(h *vHarness, r *vRand, deep bool) {
 				} else if sp.nsShape == 2 {
 					sp.ns = nil // the annotation stays malformed
 				}
+				if old != nil {
+					nobj, robj := c15Object(sp), c15Object(old)
+					if apiOld != old {
+						// the model's old object is the recorded one: the stale OldObject is used only where it takes the
+						// same way through the unchanged-fields shortcut (otherwise the earlier update is taken to have
+						// reached the store late, before this request)
+						if c15SameCompared(c15Object(apiOld), nobj) != c15SameCompared(robj, nobj) {
+							delete(stale, target)
+							apiOld = old
+							h.Tag("upd:stale-old-object:persisted-late")
+						} else {
+							staleSeen = true
+							h.Tag("upd:stale-old-object")
+							// hypotheses of stale_old_object_is_recorded_update (Props/C15.lean §21), by construction
+							if fmt.Sprint(apiOld.ns) != fmt.Sprint(old.ns) || apiOld.nsShape != old.nsShape {
+								h.Fail("C15:assumption-stale-old-object", "generated a stale OldObject of quota %d whose namespaces annotation differs from the recorded object's", target)
+							}
+							if apiOld.parent != old.parent {
+								stalePending = true
+								h.Tag("upd:stale-old-object:other-parent-than-recorded")
+							}
+							if apiOld.isParent != old.isParent || apiOld.tree != old.tree {
+								h.Tag("upd:stale-old-object:other-is-parent-or-tree-than-recorded")
+							}
+						}
+					}
+					// 1 in 4 checked updates that keep the namespaces annotation (re-parentings: 5 in 8) will not be persisted if admitted
+					if (r.Chance(1, 4) || (old.parent != sp.parent && r.Bool())) && fmt.Sprint(old.ns) == fmt.Sprint(sp.ns) && old.nsShape == sp.nsShape &&
+						!c15SameCompared(robj, nobj) && !c15SameCompared(c15Object(apiOld), nobj) {
+						noPersist = true
+					}
+				}
+				staleOld = apiOld
 				h.Tag(fmt.Sprintf("shape:ns-annotation:%d", sp.nsShape))
 				h.Tag(fmt.Sprintf("shape:shared-weight:%d", sp.swCode()))
 				h.Tag(fmt.Sprintf("shape:is-parent-label:%d", sp.ipCode()))
 				if sp.parentCode() >= 98 {
 					h.Tag(fmt.Sprintf("shape:parent-label:%d", sp.parentCode()))
 				}
+				if noPersist && echo {
+					h.Op("echo 0") // no informer event for an object that is never stored
+				}
 				h.Op("%s", c15OpLine("upd", sp, cl))
+				if noPersist && echo {
+					h.Op("echo 1")
+				}
 				obj := c15Object(sp)
 				var oldObj *v1alpha1.ElasticQuota
-				if old != nil {
-					oldObj = c15Object(old)
+				if staleOld != nil {
+					oldObj = c15Object(staleOld)
 				}
 				evOld, evObj = oldObj, obj
 				panicked = h.Guard(func() { err = qt.ValidUpdateQuota(oldObj, obj) })
 			case "del":
 				h.Op("del %d %s", target, cl.envTokens())
 				var obj *v1alpha1.ElasticQuota
-				if old != nil {
+				if so := stale[target]; so != nil && old != nil {
+					obj = c15Object(so) // the delete request carries the object the API server stores
+					staleSeen = true
+					h.Tag("del:stale-object")
+				} else if old != nil {
 					obj = c15Object(old)
 				} else {
 					obj = c15Object(&c15Spec{name: target, mn: [c15Dims]int64{c15Absent, c15Absent, c15Absent}, mx: [c15Dims]int64{c15Absent, c15Absent, c15Absent}})
@@ -1446,7 +1581,7 @@ func c15History(h *vHarness, r *vRand, deep bool) {
 				evObj = obj
 				panicked = h.Guard(func() { err = qt.ValidDeleteQuota(obj) })
 			}
-			if echo && !panicked && err == nil && (kind != "upd" || evOld != nil) {
+			if echo && !noPersist && !panicked && err == nil && (kind != "upd" || evOld != nil) {
 				// the informer event of the admitted object: typed pointer, sometimes unstructured; a delete sometimes as a
 				// tombstone by value
 				shape := 0
@@ -1488,6 +1623,11 @@ func c15History(h *vHarness, r *vRand, deep bool) {
 			ok := err == nil
 			h.Obs("res %d", vB(ok))
 			h.Tag(kind + ":" + c15ErrKind(err))
+			if sp != nil && !sp.force && !sp.treeRoot {
+				if p := g.store[sp.parent]; p != nil && p.treeRoot && p.isParent {
+					h.Tag("under-is-root-parent:" + kind + ":" + c15ErrKind(err)) // round 7: the tree root's children ARE checked against it
+				}
+			}
 			if kind == "upd" && old != nil && old.parent == sp.parent && old.isParent == sp.isParent && old.tree == sp.tree &&
 				fmt.Sprint(old.ns) == fmt.Sprint(sp.ns) && old.mn == sp.mn && old.mx == sp.mx {
 				if c15Object(old).Labels[extension.LabelQuotaParent] != c15Object(sp).Labels[extension.LabelQuotaParent] || old.ipCode() != sp.ipCode() ||
@@ -1540,8 +1680,15 @@ func c15History(h *vHarness, r *vRand, deep bool) {
 				if sp.force || sp.treeRoot {
 					minSumApplies = false
 				}
+				if noPersist && staleOld != nil {
+					stale[target] = staleOld // the API server keeps what it had
+					h.Tag("upd:admitted-not-persisted")
+				} else {
+					delete(stale, target)
+				}
 			case "del":
 				delete(g.store, target)
+				delete(stale, target)
 				// a quota with children or pods is not deleted (children per the parent links before the request)
 				for _, q := range before.qs {
 					if q.parent == target {
@@ -1570,6 +1717,10 @@ func c15History(h *vHarness, r *vRand, deep bool) {
 				h.Fail(fp, "request %d (%s %d) was admitted: %s", st, kind, target, what)
 				failed = true
 			}
+			if fp, what := c15StepMinSum(g.store, kind, old, sp); fp != "" && !failed {
+				h.Fail(fp, "request %d (%s %d) was admitted: %s", st, kind, target, what)
+				failed = true
+			}
 			// decided by this stream (DESIGN C15, reading note ii): checkMinQuotaValidate returns at once for ANY quota
 			// labelled is-root=true, also one that does not hang directly off the root.  Exhibit: such a request admitted
 			// although, counting it like an ordinary quota, its parent's or its own children's mins do not fit (no other
@@ -1586,6 +1737,10 @@ func c15History(h *vHarness, r *vRand, deep bool) {
 			}
 		}
 		book.tags(h)
+		h.Tag(fmt.Sprintf("history:stale-old-object:%d", vB(staleSeen)))
+		if stalePending {
+			h.Tag("history:stale-old-object-with-other-parent")
+		}
 		if nsKeptAcrossUpdate {
 			h.Tag("accepted-ns-edit-keeping-a-namespace")
 		}
@@ -2406,6 +2561,10 @@ func TestVerifC15Replicas(t *testing.T) {
 				}
 			}
 			if fp, what := c15Judge(g.store, minSumApplies, book); fp != "" && !failed {
+				h.Fail(fp, "request %d (%s %d) was admitted by replica %d: %s", st, kind, target, rep, what)
+				failed = true
+			}
+			if fp, what := c15StepMinSum(g.store, kind, old, sp); fp != "" && !failed {
 				h.Fail(fp, "request %d (%s %d) was admitted by replica %d: %s", st, kind, target, rep, what)
 				failed = true
 			}
